@@ -363,7 +363,7 @@ func runC16D(c C16DCase) (fails []vstat.Failure) {
 		m, err := ReadResponse(bufio.NewReader(tc), "GET")
 		tc.Close()
 		if err != nil || m.Status != 200 {
-			fails = append(fails, vstat.Failf(key("get:functional"), "GET through the binary failed (%v, %+v); %s", err, m, desc))
+			fails = append(fails, vstat.Failf(key("get:functional"), "GET through the binary failed (%v, %+v); %s; binary says: %s", err, m, desc, tailOf(output.String())))
 		} else {
 			if r := find(last, since, vid, "GET"); r == nil {
 				fails = append(fails, vstat.Failf(key("get:functional"), "the GET never reached %s; %s", last.Name, desc))
@@ -520,8 +520,8 @@ func tlsClientName(tc net.Conn, br *bufio.Reader, ca *CA, name string) *tls.Conn
 }
 
 func tailOf(s string) string {
-	if len(s) > 700 {
-		s = "…" + s[len(s)-700:]
+	if len(s) > 6000 {
+		s = "…" + s[len(s)-6000:]
 	}
 	return s
 }
